@@ -272,7 +272,13 @@ func c02Body(t *testing.T, s *sim.Scn, o *sim.Outcome) {
 			fw.dP2P = min64u(top, fw.dP2P+uint64(op.B%4))
 			f.HStore.SetHeight(fw.hP2P)
 			f.DStore.SetHeight(fw.dP2P)
-			f.PollP2P()
+			if op.C%3 == 2 {
+				// the poll comes while the sync loop still has events queued (DA-retrieved ones, duplicates)
+				f.PollP2PBusy()
+				o.Count("p2p-polls-with-queued-events", 1)
+			} else {
+				f.PollP2P()
+			}
 			o.Count("p2p-polls", 1)
 		case "deliver", "dup":
 			if !fw.deliver(i, op.A, op.B, op.K == "dup") {
@@ -455,7 +461,7 @@ func c02Gen(r *rand.Rand, tier string) *sim.Scn {
 		case x < 35:
 			s.Ops = append(s.Ops, sim.Op{K: "retrieve"})
 		case x < 50:
-			s.Ops = append(s.Ops, sim.Op{K: "p2p", A: r.Int64N(4), B: r.Int64N(4)})
+			s.Ops = append(s.Ops, sim.Op{K: "p2p", A: r.Int64N(4), B: r.Int64N(4), C: r.Int64N(3)})
 		case x < 88:
 			s.Ops = append(s.Ops, sim.Op{K: "deliver", A: r.Int64N(2), B: r.Int64N(64)})
 		case x < 95:
